@@ -78,6 +78,30 @@ def run(chk):
     for c in sorted(set(facts.callers(CTX_TZ))) if facts.has(CTX_TZ) else []:
         b = facts.body(c)
         fam_has_tz_arg = any((n or "").lower() in ("timezone", "tz") for n in [l.get("n") for l in b.locals[1:b.argc + 1]])
+        if not fam_has_tz_arg and "::{closure" in c:
+            # a closure of a function that has an explicit timezone parameter: only `<tz-derived option>.unwrap_or_else(|| *ctx.timezone())` is accepted
+            parent = c.split("::{closure")[0]
+            if facts.has(parent):
+                pb = facts.body(parent)
+                tz_params = [i for i in range(1, pb.argc + 1) if (pb.local_name(i) or "").lower() in ("timezone", "tz")]
+                if tz_params:
+                    okc = False
+                    for bi, si, st in pb.iter_stmts():
+                        if st["rv"]["k"] == "agg" and st["rv"].get("closure") == c:
+                            cl_local = st["d"]["l"]
+                            for kind, ubb, usi, ux in uses_of(pb, cl_local):
+                                if kind == "call" and pb.callee(ux).endswith("::unwrap_or_else") and "option::Option" in pb.callee(ux):
+                                    recv = op_local(ux["args"][0])
+                                    src = flow_sources(pb, recv) if recv is not None else set()
+                                    if any(("arg", i) in src for i in tz_params):
+                                        okc = True
+                    d = {"fn": c, "parent": parent, "closure_is_default_of_explicit_timezone": okc}
+                    chk.instance(rid, d, ok=okc)
+                    if not okc:
+                        chk.violation(rid, b.file, c, "ctx.timezone() read inside a closure of a function with an explicit timezone",
+                                      "the configured timezone is read in a closure that is not the `unwrap_or_else` default of the explicit `timezone` "
+                                      "argument: it can influence the result although an explicit zone was given", detail=d, loc="%s:%d" % (b.file, b.line))
+            continue
         if not fam_has_tz_arg:
             continue
         for bb, t in b.calls():
